@@ -1,7 +1,7 @@
 (* C01 - Every pin satisfies every requirement placed on it.  Statements and `exact` only. *)
 From Coq Require Import List String Bool NArith.
 From RC Require Import lib.Pep440 lib.Name model.Merge model.Graph model.Solver model.Check
-                       proofs.MergeP proofs.SolverP proofs.GraphP proofs.CheckP proofs.GraphWF proofs.SolverWF proofs.WitnessSolver proofs.SolverStatements.
+                       proofs.MergeP proofs.SolverP proofs.GraphP proofs.CheckP proofs.GraphWF proofs.GraphStable proofs.SolverWF proofs.WitnessSolver proofs.SolverStatements.
 Import ListNotations.
 Open Scope string_scope.
 
@@ -81,3 +81,25 @@ Theorem C01_contradictory_pins_fail :
   match w_c01_pins_override_run 100 with CNoCand _ nm _ => nm | COk _ _ => "<ok>" | CFatal _ => "<fatal>" end = "c".
 Proof. exact c01_pins_merged_witness. Qed.
 Print Assumptions C01_contradictory_pins_fail.
+
+(* The discard mechanism, for ALL well-formed graphs (every history of graph operations reaches only
+   such graphs: C10_history_wf): when add_dist(name, metadata, source, reason) returns, the node object
+   it worked on still exists under the normalised name, is still in the index, and is unsolved, a
+   container, version-less, or carries a version inside the reason's specifier - an existing choice
+   that the new edge excludes has been discarded. *)
+Theorem C01_excluding_edge_discards_choice :
+  forall fuel e g nm md source r g' ns,
+  wf g -> add_dist fuel e g nm md source (Some r) = Rok (g', ns) ->
+  exists id n',
+    (slookup (norm nm) (index g) = Some id \/ (slookup (norm nm) (index g) = None /\ id = next g)) /\
+    alookup id (heap g') = Some n' /\ nkey n' = norm nm /\ key_present g' (norm nm) = true /\ edge_ok r n'.
+Proof. exact add_dist_edge_checked. Qed.
+Print Assumptions C01_excluding_edge_discards_choice.
+
+(* ... and no graph operation ever drops a node object or changes the project key it carries. *)
+Theorem C01_node_objects_keep_their_project :
+  forall fuel e g nm md source reason g' ns,
+  wf g -> add_dist fuel e g nm md source reason = Rok (g', ns) ->
+  forall id n, alookup id (heap g) = Some n -> exists n', alookup id (heap g') = Some n' /\ nkey n' = nkey n.
+Proof. exact add_dist_wfx. Qed.
+Print Assumptions C01_node_objects_keep_their_project.
